@@ -4,8 +4,6 @@ import (
 	"errors"
 	"fmt"
 	"math"
-	"strconv"
-	"strings"
 
 	"github.com/shopspring/decimal"
 	"github.com/verily-src/fhirpath-go/fhirpath/internal/expr"
@@ -29,36 +27,34 @@ func Abs(ctx *expr.Context, input system.Collection, args ...expr.Expression) (s
 		return nil, fmt.Errorf("%w: received %v arguments, expected 0", ErrWrongArity, len(args))
 	}
 
-	switch input[0].(type) {
+	switch value := input[0].(type) {
 	case system.Integer:
-		// Input type conversion to int32
-		number, err := input.ToInt32()
-		if err != nil {
-			return nil, err
+		if !input.IsSingleton() {
+			return nil, fmt.Errorf("collection is not singleton")
 		}
-		// Absolution number
-		res := math.Abs(float64(number))
-		return system.Collection{system.Integer(res)}, nil
+		if value == math.MinInt32 {
+			// |MinInt32| is not representable: overflow yields empty.
+			return system.Collection{}, nil
+		}
+		if value < 0 {
+			value = -value
+		}
+		return system.Collection{value}, nil
 	case system.Decimal:
-		// Input type conversion to float64
-		number, err := input.ToFloat64()
-		if err != nil {
-			return nil, err
+		if !input.IsSingleton() {
+			return nil, fmt.Errorf("collection is not singleton")
 		}
-		// Absolution number
-		res := math.Abs(number)
-		result := decimal.NewFromFloat(res)
-		return system.Collection{system.Decimal(result)}, nil
+		return system.Collection{system.Decimal(decimal.Decimal(value).Abs())}, nil
 	case system.Quantity:
-		quantity := strings.Split(input[0].(system.Quantity).String(), " ")
-		// Input type conversion
-		f, err := strconv.ParseFloat(quantity[0], 64)
-		if err != nil {
-			return nil, err
+		if !input.IsSingleton() {
+			return nil, fmt.Errorf("collection is not singleton")
 		}
-		// Absolution number
-		res := math.Abs(f)
-		return system.Collection{system.MustParseQuantity(fmt.Sprintf("%f", res), quantity[1])}, nil
+		// value < -value holds exactly when value is negative (the units always match).
+		negated := value.Negate()
+		if negative, err := value.Less(negated); err == nil && bool(negative) {
+			return system.Collection{negated}, nil
+		}
+		return system.Collection{value}, nil
 	}
 	return nil, errors.New("input is not a number")
 }
